@@ -12,8 +12,8 @@ RULE = ("cases = calls of distance / distance_fast / dtw_cc.distance(_ndim) / wa
         "and long flat prefixes; crossing window x psi x penalty x inner distance x ndim x engine. "
         "non-trivial = unbounded distance finite, non-zero, both lengths >= 2.")
 ASSUME = ["thresholds are kept outside a 1e-6 relative neighbourhood of the unbounded distance",
-          "use_pruning is judged only where the Euclidean distance is a valid upper bound (no max_step; no "
-          "penalty or equal lengths)", "C vs C and Python vs Python comparisons (no cross-engine oracle)"]
+          "use_pruning where the Euclidean distance is not a valid upper bound (max_step; penalty with unequal "
+          "lengths) is judged too and is known finding KF-C03-1", "C vs C and Python vs Python comparisons (no cross-engine oracle)"]
 def _own_suite(tier, seed, scratch):
     """thorough: the repository's own unedited tests are one more workload under this property's monitors"""
     if tier != "thorough":
@@ -66,7 +66,8 @@ def check_matrix(ctx, fname, eng, s1, s2, kw, m, pr, keep, wp, ival):
     mext = m
     ctx.count("c03_matrix_checks")
     l1, l2 = dtwmon.tolist(s1), dtwmon.tolist(s2)
-    wit = dict(fn=fname, s1=l1, s2=l2, settings=dict(dtwmon.settings_key(kwb)), keep_int_repr=keep)
+    wit = dict(fn=fname, s1=l1, s2=l2, settings=dict(dtwmon.settings_key(kwb)), keep_int_repr=keep,
+               pruning_bound_is_not_a_path_cost=bool(pr and not dtwmon.valid_ub_domain(kw, len(l1), len(l2))))
     ctx.case((fname, dtwmon.flat(l1), dtwmon.flat(l2), dtwmon.settings_key(kwb), keep), d0 not in (0, inf))
     # distance law (the returned d is cut by the explicit max_dist only)
     dcut = (ival(m) if keep else m) if m is not None else None
@@ -147,7 +148,7 @@ def run(ctx):
                 ctx.violation("exception", fn="dtw.distance", s1=dtwmon.tolist(s1), s2=dtwmon.tolist(s2),
                               settings=dict(dtwmon.settings_key(kw0)), error=repr(e)[:300])
                 return
-        prs = [False, True] if dtwmon.valid_ub_domain(kw, r, c) else [False]
+        prs = [False, True] if (dtwmon.valid_ub_domain(kw, r, c) or rng.random() < 0.25) else [False]
         for m in thresholds(rng, d0, full=not ctx.quick and rng.random() < 0.3) + [None]:
             for pr in prs:
                 if m is None and not pr:
